@@ -1,4 +1,5 @@
 //! Shared generators (proptest strategies producing Sass source text).
+pub mod graph;
 pub mod prog;
 pub mod sel;
 pub mod val;
